@@ -206,6 +206,9 @@ static double acc_N(double acc, double v)
 #define D_ADD(a, b) acc_N((a), (b))
 //@free abs(double) => d_abs
 //@rename Bitset_at => Bitset_cat
+/* calls between the averages of one part (none in the unchanged code) resolve to the extracted overloads */
+//@rename DensityMatrixPart_getAverageOccupancy/0 => DensityMatrixPart_getAverageOccupancy0
+//@rename DensityMatrixPart_getAverageOccupancy/1 => DensityMatrixPart_getAverageOccupancy1
 //@function Pomerol::DensityMatrixPart::getAverageOccupancy() const as DensityMatrixPart_getAverageOccupancy0
 //@contract
 __CPROVER_requires(__CPROVER_is_fresh(self, sizeof(*self)) && g_self == self)
